@@ -7,7 +7,8 @@ GRoots == {"-", "A", "R"}
 Depth == IF "VERIF_DEPTH" \in DOMAIN IOEnv THEN atoi(IOEnv.VERIF_DEPTH) ELSE 4
 Mode == IF "VERIF_LSMODE" \in DOMAIN IOEnv THEN IOEnv.VERIF_LSMODE ELSE "c11"
 
-Op(r) == IF r.op = "put" THEN [op |-> "put", mode |-> r.mode, root |-> r.root, chs |-> r.chs]
+Op(r) == IF r.op = "put" /\ "size" \in DOMAIN r THEN [op |-> "put", mode |-> r.mode, root |-> r.root, chs |-> r.chs, size |-> r.size]
+         ELSE IF r.op = "put" THEN [op |-> "put", mode |-> r.mode, root |-> r.root, chs |-> r.chs]
          ELSE IF r.op = "get" THEN [op |-> "get", mode |-> r.mode, a |-> r.a]
          ELSE r
 
@@ -27,6 +28,23 @@ GInitF == /\ m = [a \in Addr |-> IF a \in {"A", "B"} THEN 1 ELSE Absent]
           /\ res = [op |-> "init"] /\ hist = FPrefix /\ pre = <<>>
 GNextF == /\ Len(hist) < Depth /\ NextC14F /\ hist' = Append(hist, Op(res')) /\ pre' = <<m, pin, cached>>
 GSpecF == GInitF /\ [][GNextF]_<<vars, hist, pre>>
+\* large-batch C14 generator: one put call of BulkN full-size chunks (20 MiB for 80) per history, so that any
+\* size-dependent splitting of the call's storage batch becomes a crash point; edge cover over the small machine
+\* NextC14B. VERIF_LSBULK = "q": pinning upload without a context and request put under a stored root only.
+BulkN == IF "VERIF_BULKN" \in DOMAIN IOEnv THEN atoi(IOEnv.VERIF_BULKN) ELSE 80
+BulkSel == IF "VERIF_LSBULK" \in DOMAIN IOEnv THEN IOEnv.VERIF_LSBULK ELSE "q"
+GAddrB == {"A"} \cup {BulkName(i) : i \in 1..BulkN}
+GRootsB == {"-", "A"}
+\* "q": the pinning upload without a context on the empty store, the request put under a context right after its
+\* root was stored, and nothing after the bulk put; otherwise every mode/context and one more operation on the bulk chunks
+BulkCase(mode, root) == BulkSel # "q" \/ (<<mode, root>> \in {<<"uploadpin", "-">>, <<"request", "A">>} /\ (root = "-") = (m["A"] = Absent))
+GNextB == /\ Len(hist) < Depth
+          /\ NextC14B(BulkN, PutModes, GRootsB)
+          /\ (res'.op = "put" /\ "size" \in DOMAIN res') => BulkCase(res'.mode, res'.root)
+          /\ BulkSel = "q" => m[BulkName(1)] = Absent
+          /\ hist' = Append(hist, Op(res'))
+          /\ pre' = <<m, pin, cached>>
+GSpecB == GInit /\ [][GNextB]_<<vars, hist, pre>>
 EdgeView == <<pre, m, pin, cached, res>>
 Scn == [par |-> [mode |-> IF Mode = "c11" THEN "c11" ELSE "c14"], ops |-> hist]
 EmitAll  == hist # <<>> => PrintT(<<"SCN", ToJson(Scn)>>)
